@@ -10,7 +10,10 @@ Chk(name, cond) == IF cond THEN TRUE ELSE PrintT(<<"FAIL", l, "C12", name>>)
 SceneOf(e) == [win |-> e.win, D |-> <<e.D[1], e.D[2], e.D[3]>>, blockers |-> e.blockers]
 TScene == /\ IsEvent("Scene")
           /\ Chk("NoPanic", Ev.ok)
-          /\ Chk("SunlitFractionIsShareOfUnblockedSamplePoints",
+          \* (a set-back window on a wall whose outline is not listed from the wall's own origin: the reveal surfaces are placed
+          \*  from the wall origin while the sample points follow the outline; recorded as a known finding under its own name)
+          /\ Chk(IF "shift" \in DOMAIN Ev /\ Ev.shift /\ Ev.sc.win.sb > 0 THEN "RevealsFollowTheWindowOnShiftedOutline"
+                 ELSE "SunlitFractionIsShareOfUnblockedSamplePoints",
                  Ev.ok => (Ev.exact /\ Ev.nrays > 0 /\ Ev.got25 = Sunlit25(SceneOf(Ev.sc))))
 All(seq, P(_)) == \A h \in DOMAIN seq : P(seq[h])
 TFsh == /\ IsEvent("Fsh")
